@@ -194,11 +194,11 @@ impl VM {
         // reset some state
         // (an earlier run can have ended with an error, halfway an expression or inside of a function call)
         self.instructions = code.instructions;
-        self.ip = 0;
+        self.ip = code.start;
         self.bp = 0;
         self.stack.clear();
         self.frames.truncate(1);
-        self.frames[0].ip = 0;
+        self.frames[0].ip = code.start;
         self.frames[0].base_pointer = 0;
 
         // Keep your friends close
